@@ -351,6 +351,8 @@ def build(tier):
         fns = [f[top]] + [f[d] for d in deps] + [f['pred_c' if top.endswith('_c') else 'pred'], f['name']]
         targets.append(T(fns[0].cname, fns, solver=None))
     targets += clone_targets()
+    import enums
+    targets += enums.targets()
     return {
         'targets': targets, 'vcs': [],
         'decided': [
